@@ -3,6 +3,7 @@ Lemmas/FrontFix.lean — helper lemmas for C18-R4: `fix_addresses` (`fixOne` / `
 symbol table and the image of a program `a ++ b` restricted to `a`.
 -/
 import CoCoVerif.Lemmas.FrontAppend
+import CoCoVerif.Lemmas.AddrOther
 
 namespace CoCo.Asm
 open CoCo
@@ -28,22 +29,44 @@ theorem addrIntOf_append {ra rb : List Stmt} {j n : Nat} (h : addrIntOf ra j = s
   | none => rw [hx] at h; cases h
   | some x => rw [addrOf_append hx]; rw [hx] at h; exact h
 
+theorem addrOther_append {ra rb : List Stmt} {v : Value} {n : Nat} (h : addrOther ra v = .ok n) :
+    addrOther (ra ++ rb) v = .ok n := by
+  unfold addrOther at h ⊢
+  by_cases hA : v.isAddress = true
+  · rw [if_pos hA] at h ⊢
+    cases hi : v.int? with
+    | none => rw [hi] at h; cases h
+    | some j =>
+      rw [hi] at h
+      dsimp only at h ⊢
+      cases hj : addrIntOf ra j with
+      | none => rw [hj] at h; cases h
+      | some a => rw [addrIntOf_append hj]; rw [hj] at h; exact h
+  · rw [if_neg hA] at h ⊢; exact h
+
 theorem addrOffset_append {ra rb : List Stmt} {v x : Value} (h : addrOffset ra v = .ok x) :
     addrOffset (ra ++ rb) v = .ok x := by
   cases v with
   | expr l r op m ae =>
-    simp only [addrOffset] at h ⊢
-    cases hp : (if l.isAddress = true then l.int? else r.int?) with
-    | none => rw [hp] at h; cases h
-    | some ai =>
-      cases hq : (if l.isNumeric = true then l.int? else r.int?) with
-      | none => rw [hp, hq] at h; cases h
-      | some add =>
-        rw [hp, hq] at h
+    rw [addrOffset_expr] at h ⊢
+    cases hq : addrOther ra (if l.isAddress = true then r else l) with
+    | ok add =>
+      rw [addrOther_append hq]; rw [hq] at h
+      cases hp : (if l.isAddress = true then l.int? else r.int?) with
+      | none => rw [hp] at h; cases h
+      | some ai =>
+        rw [hp] at h
         dsimp only at h ⊢
         cases hA : addrIntOf ra ai with
         | none => rw [hA] at h; cases h
         | some a => rw [addrIntOf_append hA]; rw [hA] at h; exact h
+    | diag => rw [hq] at h; cases h
+    | internal =>
+      rw [hq] at h
+      cases hp : (if l.isAddress = true then l.int? else r.int?) <;> rw [hp] at h <;> cases h
+    | diverged =>
+      rw [hq] at h
+      cases hp : (if l.isAddress = true then l.int? else r.int?) <;> rw [hp] at h <;> cases h
   | _ => cases h
 
 theorem sumSizes_append {ra rb : List Stmt} {lo hi : Nat} (h : hi ≤ ra.length) :
